@@ -8,6 +8,8 @@ WF_KEYS = "sorted_strict(self._keys)"
 WF_BUCKET = {
     "sorted": WF_KEYS,
     "paired": "len(self._values) == len(self._keys)",
+    # shape of the heap, not of the data: the two lists are distinct objects
+    "noalias": "self._keys is not self._values",
 }
 WF_SET = {"sorted": WF_KEYS}
 
@@ -19,6 +21,7 @@ SEARCH_ENS = {
 }
 
 CONTRACTS = []
+LEAF = ["Bucket", "Set"]
 
 
 def C(*a, **k):
@@ -32,7 +35,7 @@ for cls in ("Bucket", "Set"):
 
 # The leaf search: same body for Bucket and Set (defined on _BucketBase); it
 # is verified once with the receiver's class left symbolic.
-C("_BucketBase._search", cls=None, params={"key": "K"},
+C("_BucketBase._search", cls=LEAF, params={"key": "K"},
   requires={"sorted": WF_KEYS},
   returns="int", ensures=SEARCH_ENS, modifies=[],
   loops=[{
@@ -45,3 +48,180 @@ C("_BucketBase._search", cls=None, params={"key": "K"},
       "dec": "high - low",
   }],
   props=["C01", "C02", "C09"])
+
+# --------------------------------------------------------------------------
+# view-level helper clauses (strongest postconditions over the whole leaf)
+
+UNCHANGED_KEYS = ("self._keys is old(self._keys) and len(self._keys) == old(len(self._keys)) and "
+                  "forall(0, len(self._keys), lambda j: self._keys[j] == old(self._keys[j]))")
+UNCHANGED_VALUES = ("self._values is old(self._values) and len(self._values) == old(len(self._values)) and "
+                    "forall(0, len(self._values), lambda j: self._values[j] == old(self._values[j]))")
+PRESENT = "exists(0, old(len(self._keys)), lambda j: old(self._keys[j]) == key)"
+ABSENT = "forall(0, old(len(self._keys)), lambda j: old(self._keys[j]) != key)"
+
+
+def inserted(lst, x):
+    """`lst` is old(lst) with x inserted at the unique sorted position."""
+    return ("len(self.%(l)s) == old(len(self.%(l)s)) + 1 and "
+            "exists(0, len(self.%(l)s), lambda p: self.%(l)s[p] == %(x)s and "
+            "forall(0, p, lambda j: self.%(l)s[j] == old(self.%(l)s[j])) and "
+            "forall(p + 1, len(self.%(l)s), lambda j: self.%(l)s[j] == old(self.%(l)s[j - 1])))"
+            % {"l": lst, "x": x})
+
+
+INS_BOTH = ("len(self._keys) == old(len(self._keys)) + 1 and len(self._values) == len(self._keys) and "
+            "exists(0, len(self._keys), lambda p: self._keys[p] == key and self._values[p] == value and "
+            "forall(0, p, lambda j: self._keys[j] == old(self._keys[j]) and self._values[j] == old(self._values[j])) and "
+            "forall(p + 1, len(self._keys), lambda j: self._keys[j] == old(self._keys[j - 1]) and self._values[j] == old(self._values[j - 1])))")
+DEL_BOTH = ("len(self._keys) == old(len(self._keys)) - 1 and len(self._values) == len(self._keys) and "
+            "exists(0, old(len(self._keys)), lambda p: old(self._keys[p]) == key and result[1] == old(self._values[p]) and "
+            "forall(0, p, lambda j: self._keys[j] == old(self._keys[j]) and self._values[j] == old(self._values[j])) and "
+            "forall(p, len(self._keys), lambda j: self._keys[j] == old(self._keys[j + 1]) and self._values[j] == old(self._values[j + 1])))")
+DEL_KEYS = ("len(self._keys) == old(len(self._keys)) - 1 and "
+            "exists(0, old(len(self._keys)), lambda p: old(self._keys[p]) == key and "
+            "forall(0, p, lambda j: self._keys[j] == old(self._keys[j])) and "
+            "forall(p, len(self._keys), lambda j: self._keys[j] == old(self._keys[j + 1])))")
+INS_KEYS = ("len(self._keys) == old(len(self._keys)) + 1 and "
+            "exists(0, len(self._keys), lambda p: self._keys[p] == key and "
+            "forall(0, p, lambda j: self._keys[j] == old(self._keys[j])) and "
+            "forall(p + 1, len(self._keys), lambda j: self._keys[j] == old(self._keys[j - 1])))")
+NOALIAS_B = {"noalias": "self._keys is not self._values"}
+
+# ---- Bucket._set ----------------------------------------------------------
+C("Bucket._set", cls="Bucket",
+  params={"key": "K", "value": "V", "ifunset": "bool"},
+  requires=dict(WF_BUCKET),
+  returns=[("tuple", ["none", "V"]), ("tuple", ["int", "V"])],
+  ensures={
+      "wf_sorted": WF_KEYS,
+      "wf_paired": "len(self._values) == len(self._keys)",
+      "same_lists": "self._keys is old(self._keys) and self._values is old(self._values)",
+      # key present and (ifunset or value-same): nothing changes, status None, returns stored value
+      "present_kept": "implies(result[0] is None, " + UNCHANGED_KEYS + " and " + UNCHANGED_VALUES +
+                      " and exists(0, len(self._keys), lambda p: self._keys[p] == key and result[1] == self._values[p]))",
+      "none_only_if_present": "implies(result[0] is None, " + PRESENT + ")",
+      "none_if_present_ifunset": "implies(" + PRESENT + " and ifunset, result[0] is None)",
+      "status_domain": "result[0] is None or result[0] == 0 or result[0] == 1",
+      # replace: keys unchanged, exactly the slot of key now holds value
+      "replaced": "implies(result[0] == 0, " + UNCHANGED_KEYS + " and len(self._values) == old(len(self._values)) and result[1] == value and " + PRESENT + " and "
+                  "forall(0, len(self._keys), lambda j: self._values[j] == (value if self._keys[j] == key else old(self._values[j]))))",
+      "inserted": "implies(result[0] == 1, " + ABSENT + " and result[1] == value and " + INS_BOTH + ")",
+      "absent_inserts": "implies(" + ABSENT + ", result[0] == 1)",
+      "flagged": "implies(result[0] is not None, changed(self))",
+      "unflagged": "implies(result[0] is None, changed(self) == old(changed(self)))",
+  },
+  modifies=["list:self._keys", "list:self._values", "self._p_changed"],
+  props=["C01", "C03", "C04", "C09"])
+
+C("Bucket._del", cls="Bucket", params={"key": "K"},
+  requires=dict(WF_BUCKET),
+  returns=("tuple", ["int", "V"]),
+  ensures={
+      "wf_sorted": WF_KEYS,
+      "removed": DEL_BOTH,
+      "status": "result[0] == 0",
+      "flagged": "changed(self)",
+      "same_lists": "self._keys is old(self._keys) and self._values is old(self._values)",
+  },
+  raises={"KeyError": {"absent": ABSENT, "flag_same": "changed(self) == old(changed(self))"}},
+  modifies=["list:self._keys", "list:self._values", "self._p_changed"],
+  props=["C01", "C03", "C04", "C09"])
+
+C("Set._set", cls="Set",
+  params={"key": "K", "value": ["none", "V"], "ifunset": "bool"},
+  requires=dict(WF_SET),
+  returns=("tuple", ["bool", "none"]),
+  ensures={
+      "wf_sorted": WF_KEYS,
+      "same_list": "self._keys is old(self._keys)",
+      "added": "implies(result[0], " + ABSENT + " and " + INS_KEYS + ")",
+      "kept": "implies(not result[0], " + PRESENT + " and " + UNCHANGED_KEYS + ")",
+      "flagged": "implies(result[0], changed(self))",
+      "unflagged": "implies(not result[0], changed(self) == old(changed(self)))",
+  },
+  modifies=["list:self._keys", "self._p_changed"],
+  props=["C01", "C03", "C04", "C09"])
+
+C("Set._del", cls="Set", params={"key": "K"},
+  requires=dict(WF_SET),
+  returns=("tuple", ["int", "int"]),
+  ensures={
+      "wf_sorted": WF_KEYS,
+      "removed": DEL_KEYS,
+      "status": "result[0] == 0",
+      "flagged": "changed(self)",
+      "same_list": "self._keys is old(self._keys)",
+  },
+  raises={"KeyError": {"absent": ABSENT, "flag_same": "changed(self) == old(changed(self))"}},
+  modifies=["list:self._keys", "self._p_changed"],
+  props=["C01", "C03", "C04", "C09"])
+
+# --------------------------------------------------------------------------
+# range search (C02).  Oracle from the property statement: an omitted / None
+# bound is unbounded; an exclusive omitted bound drops only the overall
+# smallest (largest) key.
+BOUND = ["marker", "none", "any"]
+LO_OK = ("((j >= 1 or not excludemin) if (min is _marker or min is None) else "
+         "((self._keys[j] > to_key(min)) if excludemin else (self._keys[j] >= to_key(min))))")
+HI_OK = ("((j < len(self._keys) - 1 or not excludemax) if (max is _marker or max is None) else "
+         "((self._keys[j] < to_key(max)) if excludemax else (self._keys[j] <= to_key(max))))")
+RANGE_PARAMS = {"min": BOUND, "max": BOUND, "excludemin": "bool", "excludemax": "bool"}
+
+C("_BucketBase._range", cls=LEAF, params=RANGE_PARAMS,
+  requires={"sorted": WF_KEYS},
+  returns=("tuple", ["int", "int"]),
+  ensures={
+      "in_bounds": "0 <= result[0] and result[1] <= len(self._keys) and result[0] <= len(self._keys) + 1 and -1 <= result[1]",
+      "nonneg_end": "result[1] >= 0 or len(self._keys) == 0",
+      "exact": "forall(0, len(self._keys), lambda j: (result[0] <= j and j < result[1]) == (" + LO_OK + " and " + HI_OK + "))",
+  },
+  raises={"TypeError": {}}, modifies=[],
+  props=["C02"])
+
+SLICE_BOUNDS = "0 <= a and a <= len(self._keys) and a + len(result) <= len(self._keys)"
+SLICE_WHICH = ("forall(0, len(self._keys), lambda j: (a <= j and j < a + len(result)) == (" + LO_OK + " and " + HI_OK + "))")
+SLICE_COPY_K = "forall(0, len(result), lambda i: result[i] == self._keys[a + i])"
+SLICE_COPY_V = "forall(0, len(result), lambda i: result[i] == self._values[a + i])"
+# ghost out-parameter: where the returned slice starts (bound from the local at `return`)
+SLICE_WIT = {"a": "start if start <= len(self._keys) else len(self._keys)"}
+
+C("_BucketBase.keys", cls=LEAF, params=RANGE_PARAMS, ghost={"forward": "_BucketBase._range", "witness": SLICE_WIT},
+  requires={"sorted": WF_KEYS},
+  returns="list:K",
+  ensures={"bounds": SLICE_BOUNDS, "exact": SLICE_WHICH, "copy": SLICE_COPY_K, "fresh": "fresh(result)"},
+  raises={"TypeError": {}}, modifies=[],
+  props=["C02"])
+
+C("Bucket.values", cls="Bucket", params=RANGE_PARAMS, ghost={"forward": "_BucketBase._range", "witness": SLICE_WIT},
+  requires=dict(WF_BUCKET),
+  returns="list:V",
+  ensures={"bounds": SLICE_BOUNDS, "exact": SLICE_WHICH, "copy": SLICE_COPY_V, "fresh": "fresh(result)"},
+  raises={"TypeError": {}}, modifies=[],
+  props=["C02"])
+
+IN_KEYS = "exists(0, len(self._keys), lambda j: self._keys[j] == result)"
+C("_BucketBase.minKey", cls=LEAF, params={"key": BOUND},
+  requires={"sorted": WF_KEYS},
+  returns="K",
+  ensures={
+      "member": IN_KEYS,
+      "least": "forall(0, len(self._keys), lambda j: result <= self._keys[j]) if (key is _marker or key is None) else "
+               "(result >= to_key(key) and forall(0, len(self._keys), lambda j: implies(self._keys[j] >= to_key(key), result <= self._keys[j])))",
+  },
+  raises={"ValueError": {"none": "len(self._keys) == 0 if (key is _marker or key is None) else "
+                                 "forall(0, len(self._keys), lambda j: self._keys[j] < to_key(key))"},
+          "TypeError": {}},
+  modifies=[], props=["C02", "C09"])
+
+C("_BucketBase.maxKey", cls=LEAF, params={"key": BOUND},
+  requires={"sorted": WF_KEYS},
+  returns="K",
+  ensures={
+      "member": IN_KEYS,
+      "greatest": "forall(0, len(self._keys), lambda j: result >= self._keys[j]) if (key is _marker or key is None) else "
+                  "(result <= to_key(key) and forall(0, len(self._keys), lambda j: implies(self._keys[j] <= to_key(key), result >= self._keys[j])))",
+  },
+  raises={"ValueError": {"none": "len(self._keys) == 0 if (key is _marker or key is None) else "
+                                 "forall(0, len(self._keys), lambda j: self._keys[j] > to_key(key))"},
+          "TypeError": {}},
+  modifies=[], props=["C02", "C09"])
